@@ -84,6 +84,7 @@ let name = "init";
 let journal = "";
 let flag = false;
 let items: [int] = [];
+let done = 0;
 
 fn sub(a: int, b: int) -> int { a - b }
 fn enc3(a: int, b: int, c: int) -> int { a * 100 + b * 10 + c }
@@ -118,6 +119,10 @@ fn caught(s: str) -> str { try { throw(s); "no" } catch e { e.message } }
 fn checked(x: int) -> int { if x > 10 { throw("too big"); } x * 2 }
 fn ret_try(a: int) -> int { counter = counter + 1; try { return checked(a); } catch e { return 0 - 1; } }
 fn ret_try_loop(a: int) -> int { try { try { for i in 0..3 { return checked(a + i); } } catch e { throw("again"); } } catch f { return 0 - 2; } 0 }
+fn leaf() { time.sleep(0.06); done = done + 1; }
+fn mid() { time.sleep(0.02); spawn leaf(); time.sleep(0.02); }
+fn start() -> int { spawn mid(); 7 }
+fn get_done() -> int { done }
 fn early(x: int) -> int { let y = 100 + if x > 0 { return x; } else { 1 }; y }
 fn nested_call(a: int, b: int) -> int { sub(b, a) * 2 + enc3(a, b, 0) }
 fn fact(n: int) -> int { if n <= 1 { 1 } else { n * fact(n - 1) } }
@@ -135,7 +140,7 @@ fn main() {}
 
 
 def init_globals():
-    return {"counter": I(0), "total": I(0), "name": S("init"), "journal": S(""), "flag": B(False), "items": Lst([])}
+    return {"counter": I(0), "total": I(0), "name": S("init"), "journal": S(""), "flag": B(False), "items": Lst([]), "done": I(0)}
 
 
 def globals_sx(g):
@@ -231,6 +236,11 @@ def _idx(a, g):
     return fail("IndexOutOfBounds")
 
 
+def _start(a, g):
+    g["done"] = I(g["done"][1] + 1)
+    return ok(I(7))
+
+
 def _partial(a, g):
     g["counter"] = I(g["counter"][1] + a[0][1])
     return fail("UncaughtThrow", "after")
@@ -277,6 +287,10 @@ FUNCS = {
     # `return` while an operand of the enclosing `+` is pending (V8: the operand stays on the dead core's stack);
     # the host must still be handed the value of the `return`, which is on top
     "early": (["int"], "int", lambda a, g: ok(a[0]) if a[0][1] > 0 else ok(I(101)), ("v8",)),
+    # a call whose function spawns a thread that spawns another one after the first core has ended and been collected:
+    # the host call returns only when every core of the invocation has finished (`done` is already counted)
+    "start": ([], "int", _start, ()),
+    "get_done": ([], "int", lambda a, g: ok(g["done"]), ()),
     "nested_call": (["dig", "dig"], "int",
                     lambda a, g: ok(I((a[1][1] - a[0][1]) * 2 + a[0][1] * 100 + a[1][1] * 10)), ()),
     "fact": (["dig"], "int", _fact, ()),
